@@ -472,15 +472,17 @@ KNOWN_PROBES = [
 ]
 
 ADVERSARIAL = ['C', 'S', 'T', 'Ok', 'Err', 'Some', 'None', 'Result', 'Option', 'Default', 'Debug', 'Self_', 'Box', 'Send',
-               'PhantomData', 'Sync', 'Copy', 'M', 'Any', 'All', 'Initial', 'State', 'Event']
+               'PhantomData', 'Sync', 'Copy', 'M', 'Any', 'All', 'Initial', 'State', 'Event', 'Setup/SetUp']
 
 def rename_twin_probe(adv, concrete, dynamic):
     """a definition whose first leaf is called `adv`, and its twin with a neutral name; the probes of both
-    (method matrix, new, accessors) must agree modulo the renaming whenever both compile"""
-    def mk(first):
-        return _simple_def(name='Mach', states=(first, 'Other', 'Third'), events=(('go', first, 'Other'), ('back', 'Other', first)),
-                           dynamic=dynamic, ctx=(['Ctx'] if concrete else None), data=(first,))
-    return mk(adv), mk('Neutral')
+    (method matrix, new, accessors) must agree modulo the renaming whenever both compile. A pair `a/b` names the
+    first and the third leaf (identifiers that differ only in case, with distinct snake_case forms)"""
+    first, third = (adv.split('/') if '/' in adv else (adv, 'Third'))
+    def mk(a, c):
+        return _simple_def(name='Mach', states=(a, 'Other', c), events=(('go', a, 'Other'), ('back', 'Other', a), ('fin', c, 'Other')),
+                           dynamic=dynamic, ctx=(['Ctx'] if concrete else None), data=(a,))
+    return mk(first, third), mk('Neutral', 'Third')
 
 def run_known_and_rename(work, repo):
     """returns {'known': [{id, reproduced, ...}], 'rename': [{identifier, concrete, dynamic, verdict, ...}]}"""
